@@ -1,5 +1,6 @@
 import AvroModel
 import AvroProofs.Lemmas.SpecEncode
+import AvroProofs.Lemmas.Prim
 /-!
 # C02 — binary encoding follows the Avro specification
 
@@ -17,18 +18,18 @@ theorem long_eq_spec (n : Int) (h : i64ok n) : encLong n = Spec.long n := encLon
 /-- **what the library writes is specification-legal** (this is what an independent decoder
 accepts): for every conforming value the encoder succeeds and its bytes are related to the value by
 the specification relation. -/
-theorem encode_sound (cfg : Cfg) (env : Names) (hl : cfg.lim < 2^63) (hP : PrimFacts) (s : Schema) (v : Value)
+theorem encode_sound (cfg : Cfg) (env : Names) (hl : cfg.lim < 2^63) (s : Schema) (v : Value)
     (hc : Conforms cfg env s v) :
     ∃ enc n, (∀ fuel, n ≤ fuel → encode env fuel s v = .ok enc) ∧ SpecEnc cfg env s v enc :=
-  conforms_es hl hP hc
+  conforms_es hl primFacts hc
 
 /-- **every specification-legal layout is read back**: arrays and maps split over several
 blocks, blocks written with a negative count followed by a byte size, any union branch, logical
 types — the decoder returns the value and exactly the unread rest. -/
 theorem decode_complete (cfg : Cfg) (env : Names) (hl : cfg.lim < 2^63) (h1 : 1 ≤ cfg.szValue) (h2 : 1 ≤ cfg.szEntry)
-    (hP : PrimFacts) (s : Schema) (v : Value) (enc : Bytes) (h : SpecEnc cfg env s v enc) :
+    (s : Schema) (v : Value) (enc : Bytes) (h : SpecEnc cfg env s v enc) :
     ∃ n, ∀ fuel, n ≤ fuel → ∀ rest, decode cfg env fuel s (enc ++ rest) = .ok (v, rest) :=
-  spec_dc hl h1 h2 hP h
+  spec_dc hl h1 h2 primFacts h
 
 /-! non-vacuity: `[1, 2, 3]` written as a negative-count block of two items (with its byte size)
 followed by a positive-count block of one item is specification-legal -/
